@@ -38,6 +38,7 @@ def run_history(ctx, hseed, nsteps):
     kinds = []
     trace = []
     consecutive = 0
+    dict_pool = []
     sib_conflict = False
     set_by_parent = {}
 
@@ -66,8 +67,16 @@ def run_history(ctx, hseed, nsteps):
         e = rnd.choice(live[-8:] if rnd.random() < 0.6 else live)
         te = tw[e.id]
         if k < 0.42:
-            d = {rnd.choice(KEYS): rnd.choice(VALUES) for _ in range(rnd.randint(1, 3))}
+            if dict_pool and rnd.random() < 0.4:
+                d = rnd.choice(dict_pool)  # the same dictionary OBJECT handed to several QMetaData calls
+            else:
+                d = {rnd.choice(KEYS): rnd.choice(VALUES) for _ in range(rnd.randint(1, 3))}
+                dict_pool.append(d)
             ne = hist.qmetadata(e, d)
+            if hist.callers_dict_modified:
+                b4, af = hist.callers_dict_modified.pop()
+                ctx.violation("callers-dictionary-modified", f"QMetaData changed the dictionary it was given: {b4!r} -> {af!r}; trace tail {trace[-3:]}", {"hist_seed": hseed, "nsteps": nsteps})
+                break
             m = dict(model[e.id])
             m.update(d)
             model[ne.id] = m
